@@ -5,6 +5,12 @@ pub mod c03;
 pub mod c06;
 pub mod c09;
 pub mod c10;
+pub mod c11;
+pub mod c12;
+pub mod c13;
+pub mod c14;
+pub mod c15;
+pub mod c16;
 pub mod c19;
 pub mod c07;
 pub mod c20;
@@ -16,6 +22,12 @@ pub fn property(id: &str, tier: Tier) -> Option<Property> {
         "C09" => c09::property(tier),
         "C10" => c10::property(tier),
         "C19" => c19::property(tier),
+        "C11" => c11::property(tier),
+        "C13" => c13::property(tier),
+        "C15" => c15::property(tier),
+        "C12" => c12::property(tier),
+        "C14" => c14::property(tier),
+        "C16" => c16::property(tier),
         "C06" => c06::property(tier),
         "C07" => c07::property(tier),
         "C20" => c20::property(tier),
